@@ -156,6 +156,7 @@ let main_seq file do_abs =
   let oreply = ref None in
   let verfs = ref [] in
   let alloc = ref (0, 0, true) in
+  let prev_free = ref (0, 0) in
   let nsteps = ref 0 in
   (try
      while true do
@@ -187,9 +188,19 @@ let main_seq file do_abs =
          let reply_ok, detail =
            match !call, !oreply with
            | Some c, Some o ->
-             let (s', r) = step !params !st c (hint_of o) in
+             let h = hint_of o in
+             let (s', r) = step !params !st c h in
              st := s';
-             let ok = agree s' r o in
+             let (pfb, pfi) = !prev_free in
+             (* an out-of-space answer is believed only when space really is short *)
+             let ok = agree s' r o &&
+                      (match h, r with
+                       | HNoSpace, RStatus ERR ->
+                         let (s2, r2) = step !params !st c HNone in
+                         ignore s2;
+                         (match r2 with RStatus ERR | RStatus STALE | RStatus NOTSUPP -> true
+                                      | _ -> nospace_plausible c (n_of_int pfb) (n_of_int pfi))
+                       | _ -> true) in
              ok, (if ok then "" else Printf.sprintf " expected=%s observed_code=%d" (show_reply r) (int_of_n (code_of o)))
            | _ -> true, "" in
          let abs_s, nabs, nwf, alloc_ok =
@@ -208,6 +219,7 @@ let main_seq file do_abs =
            end else "", 0, 0, true in
          Printf.printf "S %s %s REPLY=%d NABS=%d NWF=%d ALLOC=%d%s%s\n" !callid !callname
            (if reply_ok then 1 else 0) nabs nwf (if alloc_ok then 1 else 0) detail abs_s;
+         prev_free := (fb, fi);
          call := None; oreply := None; callname := "init"; callid := "0"
        | _ -> ()
      done
